@@ -828,6 +828,7 @@ def run(ctx):
 
 
 VARIANTS = [
+    B("c20-puckering-centre-without-axis", ORDERP, "        center = np.mean(pos, axis=0)", "        center = np.mean(pos)", "R-20.8", control=True, why="seeded C20_m"),
     B("c20-dihedral-box-broadcast-along-rows", ORDERP, "            box = np.array(system.box[:3])\n            vector1 = pbc_dist_coordinate(vector1, box)\n            vector2 = pbc_dist_coordinate(vector2, box)\n            vector3 = pbc_dist_coordinate(vector3, box)\n", "            bonds = np.array([vector1, vector2, vector3], dtype=float)\n            box = np.array(system.box[:3])[:, np.newaxis]\n            far = np.abs(bonds) > 0.5 * box\n            bonds -= np.rint(bonds / box) * np.where(far, box, 0.0)\n            vector1, vector2, vector3 = bonds\n", "R-20.9", control=True, why="seeded C20_l"),
     B("c20-flip-skipped-for-own-velocities", ENGBASE, "        if vel is not None:\n            system.vel = vel * -1.0 if system.vel_rev else vel", "        if vel is not None and vel is not system.vel:\n            system.vel = vel * -1.0 if system.vel_rev else vel", "R-20.5", control=True, why="seeded C20_k"),
     K("c20-keep-puckering-displacements-comprehension", ORDERP, "        z = np.zeros(6)\n        for i in range(6):\n            z[i] = np.dot(pos[i, :], n)\n", "        z = np.array([np.dot(pos[i, :], n) for i in range(6)], dtype=float)\n"),
